@@ -628,6 +628,14 @@ class Lane(LaneBase):
         g = impl.new_graph(cls)
         for op in case['ops']:
             impl.apply_op(g, op)
+            if case['seed'] % 2:
+                # every cached export is queried between the calls: a later export must still be the current state
+                histories.warm_caches(g)
+                for f in (g.to_numpy, g.to_gml_string, lambda: g.skeleton.to_numpy()):
+                    try:
+                        f()
+                    except Exception:  # noqa: BLE001
+                        pass
         lines, out, oracle, tags = [], [], [], set()
         names, di, un, other = parts(g)
         cyc = not acyclic(di)
